@@ -307,8 +307,70 @@ def check_axes(prog, rep, m):
     rep.add('T10', cpu, entry, 'kernels receive float64 terrain', cpu.node.lineno, ok, 'the event generation and the sweep work on float64 values')
 
 
+def check_sweep_skeleton(prog, rep, m):
+    """T11: structural premises of the sweep (not its correctness): event dispatch insert/delete/query with the right
+    keys, node fields filled from the matching event type, and the 2*pi fix-ups that keep a node's three angles ordered
+    for cells straddling bearing 0."""
+    entry = 'viewshed sweep'
+    f = m.funcs.get('_viewshed_cpu_sweep')
+    if f is None:
+        raise AnalysisIncomplete('_viewshed_cpu_sweep not found')
+    A0, A1, A2 = 'status_node[TN_ANG_0]', 'status_node[TN_ANG_1]', 'status_node[TN_ANG_2]'
+    # event loop dispatch
+    disp = [n for n in f.own_nodes() if isinstance(n, ast.If) and T(n.test) == 'etype==ENTERING_EVENT']
+    if len(disp) != 1:
+        rep.add('T11', f, entry, 'event dispatch', f.node.lineno, None, '`if etype == ENTERING_EVENT` not found')
+        return
+    ent = disp[0]
+    ex = ent.orelse[0] if ent.orelse and isinstance(ent.orelse[0], ast.If) else None
+    ce = ex.orelse[0] if ex is not None and ex.orelse and isinstance(ex.orelse[0], ast.If) else None
+    ok = ex is not None and T(ex.test) == 'etype==EXITING_EVENT' and ce is not None and T(ce.test) == 'etype==CENTER_EVENT'
+    rep.add('T11', f, entry, 'dispatch ENTER -> insert, EXIT -> delete, CENTER -> query', ent.lineno, ok,
+            'each event type must be handled by its own branch')
+    if not ok:
+        return
+    te = [T(s) for s in ast.walk(ent) if isinstance(s, (ast.Assign, ast.AugAssign, ast.Expr))]
+    ok = 'id=_pop(idle)' in te and 'root=_insert_into_tree(status_values,status_struct,root,id,status_node)' in te
+    rep.add('T11', f, entry, 'ENTER: node inserted under a free slot id', ent.lineno, ok, '')
+    tx = [T(s) for s in ast.walk(ex) if isinstance(s, (ast.Assign, ast.Expr))]
+    ok = 'root,deleted=_delete_from_tree(status_values,status_struct,root,status_node[TN_KEY_ID])' in tx and '_push(idle,deleted)' in tx
+    rep.add('T11', f, entry, 'EXIT: node deleted by its distance key and its slot recycled', ex.lineno, ok, '')
+    tc = [T(s) for s in ast.walk(ce) if isinstance(s, (ast.Assign, ast.Expr))]
+    ok = 'max=_max_grad_in_status_struct(status_values,status_struct,root,status_node[TN_KEY_ID],e_ae[AE_ANG_ID],status_node[TN_GRAD_1])' in tc
+    rep.add('T11', f, entry, 'CENTER: max gradient among nearer cells (key, bearing, own gradient)', ce.lineno, ok,
+            'the query must use the cell\'s distance key, the event\'s bearing and the cell\'s centre gradient')
+    # node fields from the matching event
+    need = ['%s=e_ae[AE_ANG_ID]' % A0, '%s=_calculate_angle(ax,ay,vp_col,vp_row)' % A1, '%s=_calculate_angle(ax,ay,vp_col,vp_row)' % A2,
+            'status_node[TN_GRAD_0]=_calc_event_grad(ay,ax,e_ae[AE_ELEV_0],vp_row,vp_col,vp_elev,ew_res,ns_res)',
+            'status_node[TN_GRAD_2]=_calc_event_grad(ay,ax,e_ae[AE_ELEV_2],vp_row,vp_col,vp_elev,ew_res,ns_res)',
+            'status_node[TN_KEY_ID],status_node[TN_GRAD_1]=_calc_dist_n_grad(status_row,status_col,e_ae[AE_ELEV_1],vp_row,vp_col,vp_elev,ew_res,ns_res)']
+    missing = [x for x in need if x not in te]
+    rep.add('T11', f, entry, 'ENTER: enter/centre/exit angles and gradients from the matching elevations', ent.lineno, not missing,
+            'gradient k must be computed from elevation k at the position of event k: missing %s' % missing[:2])
+    # 2*pi fix-ups
+    fix = [n for n in ast.walk(ent) if isinstance(n, ast.If) and T(n.test) == 'e_ae[AE_ANG_ID]<PI']
+    ok = False
+    if len(fix) == 1:
+        n = fix[0]
+        b = [x for x in n.body if isinstance(x, ast.If)]
+        o = [x for x in n.orelse if isinstance(x, ast.If)]
+        ok = len(b) == 1 and len(o) == 1 and T(b[0].test) == '%s>%s' % (A0, A1) and [T(x) for x in b[0].body] == ['%s-=2*PI' % A0] and \
+            T(o[0].test) == '%s>%s' % (A0, A1) and sorted(T(x) for x in o[0].body) == sorted(['%s+=2*PI' % A1, '%s+=2*PI' % A2])
+    rep.add('T11', f, entry, 'ENTER: 2*pi fix-up for cells straddling bearing 0', ent.lineno, ok,
+            'when the enter angle exceeds the centre angle the cell straddles bearing 0: before pi the enter angle is '
+            'shifted down by 2*pi, afterwards the centre AND exit angles are shifted up by 2*pi, so that enter <= centre <= '
+            'exit holds in the frame of the current sweep position')
+    init = [n for n in f.own_nodes() if isinstance(n, ast.If) and n not in list(ast.walk(ent)) and T(n.test) == '%s>%s' % (A0, A1)]
+    ok = len(init) == 1 and [T(x) for x in init[0].body] == ['%s-=2*PI' % A0]
+    rep.add('T11', f, entry, 'initial sweepline cells: enter angle shifted down by 2*pi', f.node.lineno, ok,
+            'cells on the positive x axis start inside the sweep: their enter angle lies below 0')
+    vis = [n for n in ast.walk(ce) if isinstance(n, ast.If) and T(n.test) == 'max<=status_node[TN_GRAD_1]']
+    rep.add('T11', f, entry, 'CENTER: visible iff max gradient of nearer cells <= own gradient', ce.lineno, len(vis) == 1, '')
+
+
 def check(prog, rep):
     m = prog.module('viewshed')
+    check_sweep_skeleton(prog, rep, m)
     check_tables(prog, rep, m)
     check_layouts(prog, rep, m)
     check_encoding(prog, rep, m)
@@ -321,3 +383,4 @@ def check(prog, rep):
     rep.floor('T6', 5)
     rep.floor('T7', 2)
     rep.floor('T10', 2)
+    rep.floor('T11', 7)
